@@ -1,8 +1,49 @@
 """C14 Readers never see a snapshot whose data is not yet indexed."""
+import concurrent.futures as cf
+import json, os
 from props import repo_common
 
 
 def run(ctx):
-    design = repo_common.design_runs(ctx, "backup")
-    out = ctx.go_test("cmd/restic", "^TestVerif_C14$", timeout=3000, tags=["c14", "c11", "common"])
-    return repo_common.finish_trace(ctx, out, "model_checking", extra_cov={"design_model_runs": design})
+    # the design model runs (TLC, independent of /repo) go on while the Go driver runs
+    ex = cf.ThreadPoolExecutor(max_workers=1)
+    fdesign = ex.submit(repo_common.design_runs, ctx, "backup")
+    try:
+        out = ctx.go_test("cmd/restic", "^TestVerif_C14$", timeout=3000, tags=["c14", "c11", "common"])
+        return judge(ctx, out, fdesign)
+    finally:
+        ex.shutdown(wait=True)
+
+
+def judge(ctx, out, fdesign):
+    # the long-running reader (mount): one record per run of the real mount code under a tick schedule; TLC
+    # computes from the reader's own listing steps which index it holds when it serves and requires that index to
+    # cover every snapshot the mountpoint showed, and that the real code could read every one of them
+    n_mount, bad, lines = ctx.check_records("Fn_MountView", os.path.join(out, "recs_mount.ndjson"), name="mount")
+    for i in bad[:100]:
+        r = json.loads(lines[i - 1])
+        idx_at = None
+        what, detail = "listed-snapshot-not-in-loaded-index", ""
+        first = {e["b"]: e["p"] for e in r["index"]}
+        blobs = {s["s"]: s["blobs"] for s in r["snaps"]}
+        for st in r["steps"]:
+            if st["k"] == "listindex":
+                idx_at = st["at"]
+            if st["k"] != "serve":
+                continue
+            missing = {s: [b for b in blobs.get(s, []) if idx_at is None or first.get(b, 1 << 60) > idx_at][:3] for s in st["shown"]}
+            missing = {s: m for s, m in missing.items() if m}
+            if missing or st["failed"]:
+                if not missing:
+                    what = "shown-snapshot-unreadable"
+                detail = "index listed at writer op %s; shown %s; blobs missing from that index %s; unreadable %s" % (
+                    idx_at, st["shown"], missing, st["failed"])
+                break
+        ctx.violate("reader/mount/%s" % what,
+                    "scenario %s, schedule %s (tick -> writer point %s): steps %s: %s" % (
+                        r["scenario"], r.get("label"), r["sched"],
+                        [(s["k"], s["at"]) for s in r["steps"]], detail),
+                    {"scenario": r["scenario"], "reader": "mount", "label": r.get("label"), "schedule": r["sched"]})
+    design = fdesign.result()
+    return repo_common.finish_trace(ctx, out, "model_checking",
+                                    extra_cov={"design_model_runs": design, "mount_runs_judged_by_Fn_MountView": n_mount})
